@@ -54,34 +54,30 @@ func signWrapRegion(v *varInfo, c cand) bool {
 	return false
 }
 
-// fractionRegion: a non-integral decimal literal assigned to an unsigned variable.
-func fractionRegion(v *varInfo, c cand) bool {
-	if v.kind != "uint" || strings.HasPrefix(c.sql, "'") {
+// decimalRegion: a decimal literal that is not a non-negative integer (fractional part, or a
+// minus sign) assigned to an unsigned variable.
+func decimalRegion(v *varInfo, c cand) bool {
+	if v.kind != "uint" || strings.HasPrefix(c.sql, "'") || !strings.Contains(c.sql, ".") {
 		return false
 	}
 	r, ok := new(big.Rat).SetString(c.sql)
-	return ok && !r.IsInt()
+	return ok && (!r.IsInt() || r.Sign() < 0)
 }
 
-// rounded reports whether got is one of the two integers next to the literal.
-func rounded(lit, got string) bool {
+// storedOtherNumber reports whether got is an integer different from the value of the literal.
+func storedOtherNumber(lit, got string) bool {
 	r, ok := new(big.Rat).SetString(lit)
 	if !ok || !strings.HasPrefix(got, "n:") {
 		return false
 	}
 	g, ok := new(big.Rat).SetString(got[2:])
-	if !ok || !g.IsInt() {
-		return false
-	}
-	d := new(big.Rat).Sub(g, r)
-	d.Abs(d)
-	return d.Cmp(big.NewRat(1, 1)) < 0
+	return ok && g.IsInt() && g.Cmp(r) != 0
 }
 
-func outOfDomainRegion(v *varInfo, c cand) bool { return signWrapRegion(v, c) || fractionRegion(v, c) }
+func outOfDomainRegion(v *varInfo, c cand) bool { return signWrapRegion(v, c) || decimalRegion(v, c) }
 
 var findings = []finding{
 	{findingSignWrap, func(v *varInfo, c cand, got string) bool {
-		return signWrapRegion(v, c) && storedOtherInteger(c.sql, got) || fractionRegion(v, c) && rounded(c.sql, got)
+		return signWrapRegion(v, c) && storedOtherInteger(c.sql, got) || decimalRegion(v, c) && storedOtherNumber(c.sql, got)
 	}},
 }
